@@ -591,6 +591,410 @@ pub fn replay_net(v: &serde_json::Value) -> Vec<(String, String)> {
     rt().block_on(run_net_history(&h)).into_iter().map(|(s, d)| (format!("{s}:{}", if h.tls { "tls" } else { "tcp" }), d)).collect()
 }
 
+
+// ---------------------------------------------------------------------------------------------
+// C07: what the peer sends (or withholds) *during the TLS handshake* of the client
+// ---------------------------------------------------------------------------------------------
+
+/// listener that records every announced state without holding the task
+struct Tap {
+    tx: mpsc::UnboundedSender<ClientState>,
+}
+
+impl Listener<ClientState> for Tap {
+    fn update(&mut self, value: ClientState) -> MaybeAsync<()> {
+        let _ = self.tx.send(value);
+        MaybeAsync::ready(())
+    }
+}
+
+/// behaviour of the peer on every TCP connection it accepts
+#[derive(Clone, Debug, serde::Serialize, serde::Deserialize, PartialEq, Eq, Hash)]
+pub enum PeerHs {
+    /// a real rustls acceptor whose bytes towards the client are cut after `k` bytes (then silence)
+    Prefix { v12: bool, k: usize },
+    /// these raw bytes, then silence
+    Raw(Vec<u8>),
+}
+
+#[derive(Clone, Copy, Debug, serde::Serialize, serde::Deserialize, PartialEq, Eq, Hash)]
+pub enum HsOp {
+    Request,
+    SetDecode,
+    Disable,
+    Enable,
+    Drop,
+    Shutdown,
+}
+
+struct HsPeer {
+    addr: SocketAddr,
+    forwarded: Arc<std::sync::atomic::AtomicUsize>,
+    accepted: Arc<std::sync::atomic::AtomicUsize>,
+    handshakes: Arc<std::sync::atomic::AtomicUsize>,
+    task: tokio::task::JoinHandle<()>,
+    _holder: tokio::net::TcpSocket,
+}
+
+impl Drop for HsPeer {
+    fn drop(&mut self) {
+        self.task.abort();
+    }
+}
+
+fn start_hs_peer(behaviour: PeerHs) -> Option<HsPeer> {
+    use std::sync::atomic::{AtomicUsize, Ordering};
+    use tokio::io::{AsyncReadExt, AsyncWriteExt};
+    let (holder, addr) = hold_port();
+    let listener = bind_reuse(addr, 16)?;
+    let forwarded = Arc::new(AtomicUsize::new(0));
+    let accepted = Arc::new(AtomicUsize::new(0));
+    let handshakes = Arc::new(AtomicUsize::new(0));
+    let (f2, a2, h2) = (forwarded.clone(), accepted.clone(), handshakes.clone());
+    let task = tokio::spawn(async move {
+        let mut conns = tokio::task::JoinSet::new();
+        loop {
+            let Ok((tcp, _)) = listener.accept().await else { return };
+            a2.fetch_add(1, Ordering::SeqCst);
+            let (behaviour, f3, h3) = (behaviour.clone(), f2.clone(), h2.clone());
+            conns.spawn(async move {
+                let (mut cr, mut cw) = tcp.into_split();
+                match behaviour {
+                    PeerHs::Raw(bytes) => {
+                        let _ = cw.write_all(&bytes).await;
+                        f3.fetch_add(bytes.len(), Ordering::SeqCst);
+                        // silence until the client goes away
+                        let mut buf = [0u8; 4096];
+                        while let Ok(n) = cr.read(&mut buf).await {
+                            if n == 0 {
+                                break;
+                            }
+                        }
+                    }
+                    PeerHs::Prefix { v12, k } => {
+                        let (a, b) = tokio::io::duplex(1 << 16);
+                        let versions = if v12 { PeerVersions::Tls12Only } else { PeerVersions::Tls13Only };
+                        let acceptor = tokio_rustls::TlsAcceptor::from(peer_server_config(versions, "srv_valid"));
+                        let acc = tokio::spawn(async move {
+                            if let Ok(s) = acceptor.accept(a).await {
+                                h3.fetch_add(1, Ordering::SeqCst);
+                                // keep the session open, never answer a request
+                                let (mut r, _w) = tokio::io::split(s);
+                                let mut buf = [0u8; 4096];
+                                while let Ok(n) = r.read(&mut buf).await {
+                                    if n == 0 {
+                                        break;
+                                    }
+                                }
+                            }
+                        });
+                        let (mut br, mut bw) = tokio::io::split(b);
+                        let up = async {
+                            let mut buf = [0u8; 4096];
+                            loop {
+                                match cr.read(&mut buf).await {
+                                    Ok(0) | Err(_) => return,
+                                    Ok(n) => {
+                                        if bw.write_all(&buf[..n]).await.is_err() {
+                                            return;
+                                        }
+                                    }
+                                }
+                            }
+                        };
+                        let down = async {
+                            let mut left = k;
+                            let mut buf = [0u8; 4096];
+                            loop {
+                                if left == 0 {
+                                    std::future::pending::<()>().await;
+                                }
+                                match br.read(&mut buf).await {
+                                    Ok(0) | Err(_) => std::future::pending::<()>().await,
+                                    Ok(n) => {
+                                        let n = n.min(left);
+                                        if cw.write_all(&buf[..n]).await.is_err() {
+                                            std::future::pending::<()>().await;
+                                        }
+                                        left -= n;
+                                        f3.fetch_add(n, Ordering::SeqCst);
+                                    }
+                                }
+                            }
+                        };
+                        tokio::select! {
+                            _ = up => {}
+                            _ = down => {}
+                        }
+                        acc.abort();
+                    }
+                }
+            });
+        }
+    });
+    Some(HsPeer { addr, forwarded, accepted, handshakes, task, _holder: holder })
+}
+
+fn hs_client(addr: SocketAddr) -> Result<(Channel, tokio::task::JoinHandle<()>, mpsc::UnboundedReceiver<ClientState>), String> {
+    let (tx, states) = mpsc::unbounded_channel();
+    let options = ClientOptions::default().max_queued_requests(16).decode_level(DecodeLevel::nothing());
+    let retry = doubling_retry_strategy(Duration::from_millis(RETRY_MIN), Duration::from_millis(RETRY_MAX));
+    let cfg = TlsClientConfig::full_pki(Some("test.com".into()), &cert_path("ca_a"), &cert_path("cli_operator"), &key_path("cli_operator"), None, MinTlsVersion::V1_2).map_err(|e| e.to_string())?;
+    let (channel, task) = create_tls_client_task_with_options(HostAddr::ip(addr.ip(), addr.port()), retry, cfg, Some(Box::new(Tap { tx })), options);
+    let join = tokio::spawn(task.run());
+    Ok((channel, join, states))
+}
+
+/// number of bytes a real acceptor sends before the client reports Connected
+pub async fn hs_flight_len(v12: bool) -> Result<usize, String> {
+    use std::sync::atomic::Ordering;
+    let peer = start_hs_peer(PeerHs::Prefix { v12, k: usize::MAX }).ok_or("no listener")?;
+    let (channel, join, mut states) = hs_client(peer.addr)?;
+    let _ = channel.enable().await;
+    let r = tokio::time::timeout(STEP_TIMEOUT, async {
+        while let Some(s) = states.recv().await {
+            if s == ClientState::Connected {
+                return true;
+            }
+        }
+        false
+    })
+    .await;
+    let n = peer.forwarded.load(Ordering::SeqCst);
+    drop(channel);
+    join.abort();
+    match r {
+        Ok(true) if n > 0 => Ok(n),
+        _ => Err(format!("the probe handshake (v12={v12}) never completed ({n} bytes forwarded)")),
+    }
+}
+
+async fn wait_state(states: &mut mpsc::UnboundedReceiver<ClientState>, want: ClientState) -> bool {
+    tokio::time::timeout(STEP_TIMEOUT, async {
+        while let Some(s) = states.recv().await {
+            if s == want {
+                return true;
+            }
+        }
+        false
+    })
+    .await
+    .unwrap_or(false)
+}
+
+/// one peer behaviour, one script of API calls made while the peer behaves that way
+pub async fn run_hs_case(behaviour: &PeerHs, ops: &[HsOp]) -> Vec<(String, String)> {
+    use std::sync::atomic::Ordering;
+    let mut problems = vec![];
+    let Some(peer) = start_hs_peer(behaviour.clone()) else { return vec![("MACHINERY:listener".into(), "could not listen".into())] };
+    let (channel, join, mut states) = match hs_client(peer.addr) {
+        Ok(x) => x,
+        Err(e) => return vec![("MACHINERY:tls-config".into(), e)],
+    };
+    let mut handle = Some(channel);
+    let _ = handle.as_ref().unwrap().enable().await;
+    // let the peer play its part of the first attempt
+    let want = match behaviour {
+        PeerHs::Prefix { k, .. } => *k,
+        PeerHs::Raw(b) => b.len(),
+    };
+    let deadline = Instant::now() + Duration::from_millis(400);
+    while Instant::now() < deadline {
+        if peer.accepted.load(Ordering::SeqCst) > 0 && peer.forwarded.load(Ordering::SeqCst) >= want {
+            break;
+        }
+        tokio::time::sleep(Duration::from_millis(1)).await;
+    }
+    if peer.accepted.load(Ordering::SeqCst) == 0 {
+        problems.push(("MACHINERY:never-connected".into(), "the client never connected to the peer".into()));
+    }
+    for (i, op) in ops.iter().enumerate() {
+        if !problems.is_empty() {
+            break;
+        }
+        let step = format!("step {i} {op:?}");
+        match op {
+            HsOp::Request => {
+                let c = handle.as_ref().unwrap().clone();
+                let r = tokio::time::timeout(STEP_TIMEOUT, async move { c.read_coils(RequestParam::new(UnitId::new(1), Duration::from_millis(100)), AddressRange::try_from(0, 1).unwrap()).await }).await;
+                match r {
+                    Err(_) => problems.push(("request-never-completes".into(), format!("{step}: a request with a 100 ms response timeout was still unresolved after {STEP_TIMEOUT:?}"))),
+                    Ok(Ok(v)) => problems.push(("request-succeeded".into(), format!("{step}: the peer never answered, yet the request returned {v:?}"))),
+                    Ok(Err(_)) => {}
+                }
+            }
+            HsOp::SetDecode => {
+                let c = handle.as_ref().unwrap();
+                match tokio::time::timeout(STEP_TIMEOUT, c.set_decode_level(DecodeLevel::nothing())).await {
+                    Ok(Ok(())) => {}
+                    other => problems.push(("handle-unusable".into(), format!("{step}: set_decode_level -> {other:?}"))),
+                }
+            }
+            HsOp::Disable => {
+                let c = handle.as_ref().unwrap();
+                match tokio::time::timeout(STEP_TIMEOUT, c.disable()).await {
+                    Ok(Ok(())) => {}
+                    other => problems.push(("handle-unusable".into(), format!("{step}: disable -> {other:?}"))),
+                }
+                if !wait_state(&mut states, ClientState::Disabled).await {
+                    problems.push(("disable-ignored".into(), format!("{step}: Disabled was not announced within {STEP_TIMEOUT:?}")));
+                }
+            }
+            HsOp::Enable => {
+                let c = handle.as_ref().unwrap();
+                match tokio::time::timeout(STEP_TIMEOUT, c.enable()).await {
+                    Ok(Ok(())) => {}
+                    other => problems.push(("handle-unusable".into(), format!("{step}: enable -> {other:?}"))),
+                }
+                if !wait_state(&mut states, ClientState::Connecting).await {
+                    problems.push(("enable-ignored".into(), format!("{step}: Connecting was not announced within {STEP_TIMEOUT:?}")));
+                }
+            }
+            HsOp::Drop | HsOp::Shutdown => {
+                if *op == HsOp::Shutdown {
+                    let c = handle.as_ref().unwrap();
+                    match tokio::time::timeout(STEP_TIMEOUT, c.shutdown()).await {
+                        Ok(_) => {}
+                        Err(_) => problems.push(("handle-unusable".into(), format!("{step}: shutdown() did not return within {STEP_TIMEOUT:?}"))),
+                    }
+                }
+                handle = None;
+                if !wait_state(&mut states, ClientState::Shutdown).await {
+                    problems.push(("shutdown-ignored".into(), format!("{step}: Shutdown was not announced within {STEP_TIMEOUT:?}")));
+                } else {
+                    let ended = tokio::time::timeout(STEP_TIMEOUT, async {
+                        while !join.is_finished() {
+                            tokio::time::sleep(Duration::from_millis(1)).await;
+                        }
+                    })
+                    .await;
+                    if ended.is_err() {
+                        problems.push(("shutdown-ignored".into(), format!("{step}: the client task did not end within {STEP_TIMEOUT:?}")));
+                    }
+                }
+                break;
+            }
+        }
+    }
+    let _ = peer.handshakes.load(Ordering::SeqCst);
+    drop(handle);
+    join.abort();
+    problems
+}
+
+pub fn hs_scripts() -> Vec<Vec<HsOp>> {
+    use HsOp::*;
+    vec![vec![Request, SetDecode, Request, Disable, Enable, Request, Drop], vec![Drop], vec![Disable, Drop], vec![Shutdown], vec![Request, Shutdown]]
+}
+
+/// C07, client role, TLS: every cut of the peer's real handshake flight (and some byte strings that
+/// are not TLS at all) followed by silence, against every script of API calls
+pub fn handshake_input_phase(thorough: bool) -> (Stats, serde_json::Value) {
+    let mut st = Stats::default();
+    let lens = rt().block_on(async { (hs_flight_len(false).await, hs_flight_len(true).await) });
+    let (l13, l12) = match lens {
+        (Ok(a), Ok(b)) => (a, b),
+        (a, b) => {
+            st.violation(Violation { signature: "MACHINERY:handshake-probe".into(), summary: format!("probe handshakes: {a:?} {b:?}"), replay: json!({}) });
+            return (st, json!({}));
+        }
+    };
+    let mut peers: Vec<PeerHs> = vec![];
+    for (v12, l) in [(false, l13), (true, l12)] {
+        let ks: Vec<usize> = if thorough {
+            (0..l).collect()
+        } else {
+            let mut v: Vec<usize> = (0..8).collect();
+            v.extend([50, 100, l / 4, l / 2, 3 * l / 4, l - 2, l - 1]);
+            v.sort();
+            v.dedup();
+            v.into_iter().filter(|k| *k < l).collect()
+        };
+        for k in ks {
+            peers.push(PeerHs::Prefix { v12, k });
+        }
+    }
+    for raw in [
+        vec![0x16, 0x03, 0x03, 0xff, 0xff],
+        vec![0x16, 0x03, 0x03, 0x00, 0x00],
+        vec![0x15, 0x03, 0x03, 0x00, 0x02, 0x02],
+        vec![0x00; 5],
+        vec![0xff; 64],
+        b"HTTP/1.1 400 Bad Request\r\n\r\n".to_vec(),
+        // a Modbus reply where a ServerHello is expected
+        mbap_raw(0, 0, 6, 1, &[1, 1, 0]),
+    ] {
+        peers.push(PeerHs::Raw(raw));
+    }
+    let scripts = hs_scripts();
+    let mut cases: Vec<(PeerHs, Vec<HsOp>)> = vec![];
+    for (i, p) in peers.iter().enumerate() {
+        for (j, s) in scripts.iter().enumerate() {
+            // thorough: every cut with the long script, every 8th cut with the others
+            if thorough && matches!(p, PeerHs::Prefix { .. }) && j != 0 && i % 8 != j % 8 {
+                continue;
+            }
+            cases.push((p.clone(), s.clone()));
+        }
+    }
+    let cases = Arc::new(cases);
+    let results: Arc<Mutex<Vec<(usize, Vec<(String, String)>)>>> = Arc::new(Mutex::new(vec![]));
+    rt().block_on(async {
+        let sem = Arc::new(tokio::sync::Semaphore::new(16));
+        let mut joins = vec![];
+        for i in 0..cases.len() {
+            let (cases, results, sem) = (cases.clone(), results.clone(), sem.clone());
+            joins.push(tokio::spawn(async move {
+                let _p = sem.acquire().await.unwrap();
+                let mut r = run_hs_case(&cases[i].0, &cases[i].1).await;
+                if !r.is_empty() {
+                    // real sockets and real time: a verdict must reproduce
+                    let r2 = run_hs_case(&cases[i].0, &cases[i].1).await;
+                    if r2.is_empty() {
+                        r = r2;
+                    }
+                }
+                results.lock().unwrap().push((i, r));
+            }));
+        }
+        for j in joins {
+            let _ = j.await;
+        }
+    });
+    let mut res = results.lock().unwrap().clone();
+    res.sort_by_key(|x| x.0);
+    for (i, problems) in res {
+        let (p, s) = &cases[i];
+        st.evaluations += 1;
+        st.traces += 1;
+        st.transitions += s.len() as u64;
+        st.class(match p {
+            PeerHs::Prefix { v12: false, .. } => "client-tls-handshake:flight-cut:tls13",
+            PeerHs::Prefix { v12: true, .. } => "client-tls-handshake:flight-cut:tls12",
+            PeerHs::Raw(_) => "client-tls-handshake:not-tls",
+        });
+        st.state(&(p, s));
+        st.observe(&(p, s, problems.len()));
+        if i % 97 == 0 {
+            st.sample(json!({"peer": p, "script": s}));
+        }
+        for (sig, desc) in problems {
+            st.violation(Violation {
+                signature: format!("client-during-tls-handshake:{sig}"),
+                summary: format!("peer {p:?}, script {s:?}: {desc}"),
+                replay: json!({"kind": "c07-handshake", "peer": p, "script": s}),
+            });
+        }
+    }
+    (st, json!({"flight_len_tls13": l13, "flight_len_tls12": l12, "scripts": scripts.len(), "peers": peers.len()}))
+}
+
+pub fn replay_hs(v: &serde_json::Value) -> Vec<(String, String)> {
+    let p: PeerHs = serde_json::from_value(v["peer"].clone()).unwrap();
+    let s: Vec<HsOp> = serde_json::from_value(v["script"].clone()).unwrap();
+    rt().block_on(run_hs_case(&p, &s)).into_iter().map(|(s, d)| (format!("client-during-tls-handshake:{s}"), d)).collect()
+}
+
 #[allow(dead_code)]
 fn unused() -> Vec<u8> {
     mbap_frame(0, 0, &[])
